@@ -460,15 +460,13 @@ def show_key(k):
     return f"({k[0]}, {float(k[1])!r})"
 
 
-def build_batch(rows, sdt, fdt, mdt, d, sol_dim, real_info=None):
+def build_batch(rows, sdt, fdt, mdt, d, sol_dim):
     n = len(rows)
     data = {
         "solution": np.zeros((n, sol_dim), dtype=mdt),
         "objective": np.array([r[OBJ] for r in rows], dtype=fdt),
         "measures": np.array([r[MEAS] for r in rows], dtype=mdt).reshape(n, -1 if n else d),
     }
-    if real_info is not None:
-        return data, real_info
     info = {
         "status": np.array([r[ST] for r in rows], dtype=sdt),
         "value": np.array([r[VAL] for r in rows], dtype=fdt),
@@ -831,16 +829,16 @@ def run(ctx):
 
     try:
         ctx.explore("combinations", counted(next_combo), run_case, len(all_combos), nontrivial=nontrivial,
-                    time_budget=8 if ctx.quick else 120)
+                    time_budget=8 if ctx.quick else 100)
         ctx.explore("batches", counted(gen_batches), run_case, ctx.n(1000, 120000), nontrivial=nontrivial,
-                    time_budget=10 if ctx.quick else 150)
+                    time_budget=10 if ctx.quick else 140)
         ctx.explore("direction", counted(gen_direction), run_case, ctx.n(500, 50000), nontrivial=nontrivial,
-                    time_budget=6 if ctx.quick else 90)
+                    time_budget=6 if ctx.quick else 80)
         # numba compiles the optimizer once per dtype (seconds): the quick tier keeps to float64 archives here
         # (float32 archives are covered by the other strata and by the thorough tier)
         adts = ("float64",) if ctx.quick else tuple(FLOAT_DTYPES)
         ctx.explore("emitter", counted(lambda rng: gen_emitter(rng, adts)), run_case, ctx.n(250, 20000),
-                    nontrivial=nontrivial, time_budget=10 if ctx.quick else 100)
+                    nontrivial=nontrivial, time_budget=10 if ctx.quick else 90)
     finally:
         _close_driver()
         for k, v in STATS.items():
